@@ -277,6 +277,38 @@ def seq_script_for(order, hist, cfgline, keylines, pre):
             body.append('0 ' + ' '.join(op))
     return '\n'.join(lines + body) + '\n'
 
+def directed_variants(script, out, fail_line, max_variants=6):
+    """Schedules aimed at the first event of the real trace that is not a step of the model: keep the
+    scheduling decisions up to the yield that precedes it, then let every other thread run as long as it
+    can before the offending thread continues (and, as a second family, switch one yield earlier)."""
+    lines = out.split('\n')
+    decisions = []
+    pos_of_line = {}
+    for i, ln in enumerate(lines):
+        if ln.startswith('Y '):
+            decisions.append(int(ln.split()[1]))
+        pos_of_line[i + 1] = len(decisions)
+    if fail_line not in pos_of_line:
+        return []
+    n = pos_of_line[fail_line]
+    m = [l for l in lines[:fail_line] if l.startswith('EV ')]
+    if not m:
+        return []
+    offender = int(lines[fail_line - 1].split()[1]) if lines[fail_line - 1].startswith('EV ') else None
+    nthr = len([l for l in script.split('\n') if l.startswith('thread ')])
+    base = [l for l in script.split('\n') if not (l.startswith('seed ') or l.startswith('sched '))]
+    res = []
+    for back in (1, 2, 3, 0):
+        k = max(0, n - back)
+        for u in range(nthr):
+            if u == offender:
+                continue
+            sched = decisions[:k] + [u] * 400
+            res.append('\n'.join(base + ['sched ' + ' '.join(map(str, sched))]) + '\n')
+            if len(res) >= max_variants:
+                return res
+    return res
+
 def run_one(args):
     binary, script, tag, keep_dir, do_confirm = args
     os.makedirs(keep_dir, exist_ok=True)
@@ -324,6 +356,9 @@ def run_one(args):
     res['replayed'] = not rep
     if rep:
         res['replay_fail'] = rep[0]
+        mm = re.search(r'line (\d+)', rep[0])
+        if mm:
+            res['directed'] = directed_variants(script, out, int(mm.group(1)))
     # lock-list race (known finding signature)
     races = lock_list_races(run['events'])
     if races:
